@@ -20,7 +20,8 @@ def other_bins():
     """(binary, argv-tail) of other single-threaded domains whose harness exists (joins, save/load)."""
     cmds = []
     for b, tails in (("h_join", [["gen", "{seed}", "60", "30"]]), ("h_saveload", [["gen", "{seed}", "150", "30"]]), ("h_changeset", [["gen", "{seed}", "200", "30"]])):
-        if os.path.exists(os.path.join(vlib.HARNESS, "src", "bin", b + ".rs")) or os.path.isdir(os.path.join(vlib.HARNESS, "src", "bin", b)):
+        registered = open(os.path.join(vlib.VERIF, "harness", "BINS")).read().split()
+        if b in registered:
             for t in tails:
                 cmds.append((b, t))
     return cmds
